@@ -41,7 +41,9 @@ StrLt(s, set) == s \in set
 (* Commands (AMF0, type 20): name, transaction id, arguments.                                   *)
 \* lstrmax / lstrwrap: the command name is an AMF0 long string announcing 2^32-1 / 2^32-4 bytes
 ParseFail == {"empty", "1byte", "notid", "tidstr", "namenum", "cutname", "cuttid", "lstrmax", "lstrwrap"}
-ConnectOk == {"ok", "ok3", "deepok"}
+\* tcnum / oestr / fvobj: a property lal can do without has another AMF type than expected (it counts as absent);
+\* appnum / appbool / appobj: the application name does (the connect is refused like one without it)
+ConnectOk == {"ok", "ok3", "deepok", "tcnum", "oestr", "fvobj"}
 PublishOk == {"ok", "nolast", "longstr", "emptyname", "query", "dots"}
 PlayOk    == {"ok", "nolast", "longstr", "emptyname"}
 Ignored   == {"deleteStream", "FCPublish", "releaseStream", "getStreamLength", "FCUnpublish", "unknown", "createStream"}
